@@ -2,6 +2,8 @@ package absint
 
 import (
 	"math/big"
+
+	"golang.org/x/tools/go/ssa"
 	"sort"
 	"strings"
 )
@@ -226,4 +228,13 @@ func symShift(op string, a *Sym, k int, w int) *Sym {
 		return a
 	}
 	return mkSym(op, w, big.NewInt(int64(k)), a)
+}
+
+// ResetGlobals drops the process-wide tables (value numbers, index-site registry); called between properties so that a
+// run over all properties does not accumulate them.
+func ResetGlobals() {
+	symTab = map[string]*Sym{}
+	symFresh = 0
+	IndexConcrete = map[*ssa.IndexAddr]bool{}
+	IndexAbstract = map[*ssa.IndexAddr]bool{}
 }
